@@ -12,15 +12,15 @@ import (
 // c04Tx is one transaction of the schedule: a read of key r, then (if read-write) a write of key w, then a second
 // read of key r2; finally commit or rollback.
 type c04Tx struct {
-	ro            bool
-	r, w, r2      int
-	del           bool
-	val           []byte
-	commit        bool
-	begin, end    int64 // logical clock readings around the whole transaction
-	got1, got2    []byte
+	ro             bool
+	r, w, r2       int
+	del            bool
+	val            []byte
+	commit         bool
+	begin, end     int64 // logical clock readings around the whole transaction
+	got1, got2     []byte
 	found1, found2 bool
-	failed        bool
+	failed         bool
 }
 
 type c04State struct {
